@@ -7,7 +7,8 @@
    optional "hist" (both ops): a history of /proc/meminfo contents, `virtual_memory()` and
               `memory_percent(t)` calls starting from an empty `_TOTAL_PHYMEM`; the driver threads
               the model state (Model/C13Pct.lean) and prints, per step, the model's answer, the
-              answer relative to the CURRENT total (spec) and whether the cache is stale. -/
+              answer relative to the total psutil LAST READ computed from the records (spec,
+              C13_percent_last_read) and, informationally, whether that total is not the current one. -/
 import PsutilModel.Base.Proto
 import PsutilModel.Model.C13Gen
 import PsutilModel.Spec.C13
@@ -114,48 +115,67 @@ def specTotal (mi : MI) : Option Nat :=
   | some ls => if wfMeminfo ls then some (memTotal ls) else none
   | none => none
 
-/-- one step: (model answer, spec answer, cache stale?, meminfo bytes written) -/
+/-- spec side of a history: the total psutil read last, computed from the RECORDS (not by the
+    model): `known none` = nothing read yet, `unknown` = a read happened on content outside the
+    spec's domain (raw / ill-formed meminfo, or process files outside the domain) -/
+inductive Last
+  | known (t : Option Nat)
+  | unknown
+
+/-- one step: (answers, meminfo, model state, spec state). Spec (C13_percent_last_read):
+    memory_percent(t) = 100 * field / (the total psutil last read: by the latest virtual_memory(),
+    or by the first memory_percent() when none was made; 0 is re-read). `stale` is informational:
+    the total last read differs from the one /proc/meminfo holds now. -/
 def histStep (info full : Res (List Nat)) (specVal : String → Option (Option Nat))
-    (st : HStep) (mi : MI) (s : PState) : (Json × MI × PState) :=
+    (st : HStep) (mi : MI) (s : PState) (last : Last) : (Json × MI × PState × Last) :=
   let stale : Bool := match truthy s.cache, specTotal mi with
     | some t, some cur => t != cur
     | _, _ => false
   match st with
   | .meminfoKV ls =>
     let b := renderMeminfo ls
-    (jObj [("op", Json.str "meminfo"), ("file", jBytes b), ("wf", Json.bool (wfMeminfo ls))], ⟨some ls, b⟩, s)
-  | .meminfoRaw b => (jObj [("op", Json.str "meminfo"), ("file", jBytes b), ("wf", Json.bool false)], ⟨none, b⟩, s)
+    (jObj [("op", Json.str "meminfo"), ("file", jBytes b), ("wf", Json.bool (wfMeminfo ls))], ⟨some ls, b⟩, s, last)
+  | .meminfoRaw b => (jObj [("op", Json.str "meminfo"), ("file", jBytes b), ("wf", Json.bool false)], ⟨none, b⟩, s, last)
   | .vm =>
     let (r, s') := virtualMemory pcfg mi.bytes s
-    let sp : Json := match specTotal mi with
-      | some t => jObj [("ok", jNat t)]
-      | none => Json.null
-    (jObj [("op", Json.str "vm"), ("model", jRes jNat r), ("spec", sp), ("stale", Json.bool stale)], mi, s')
+    let (sp, last') : Json × Last := match specTotal mi with
+      | some t => (jObj [("ok", jNat t)], .known (some t))
+      | none => (Json.null, .unknown)
+    (jObj [("op", Json.str "vm"), ("model", jRes jNat r), ("spec", sp), ("stale", Json.bool stale)], mi, s', last')
   | .pct mt =>
     let (r, s') := memoryPercentS cfg pcfg mt info full mi.bytes s
-    -- spec: 100 * field / the total the kernel reports NOW
-    let sp : Json := match specVal mt with
-      | none => Json.null                                     -- the process files are outside the spec's domain
-      | some none => jObj [("exc", Json.str "ValueError")]    -- unknown memtype
+    let pctJ (v t : Nat) : Json :=
+      if t > 0 then jObj [("ok", jRat (specPercent v (t : Int)))] else jObj [("exc", Json.str "ValueError")]
+    let usable : Option Nat := match last with
+      | .known (some t) => if t = 0 then none else some t
+      | _ => none
+    let (sp, last') : Json × Last := match specVal mt with
+      | some none => (jObj [("exc", Json.str "ValueError")], last)      -- unknown memtype: nothing is read
+      | none =>                                                          -- process files outside the spec's domain
+        (Json.null, match usable with | some _ => last | none => .unknown)
       | some (some v) =>
-        match specTotal mi with
-        | none => Json.null
-        | some t => if t > 0 then jObj [("ok", jRat (specPercent v (t : Int)))] else jObj [("exc", Json.str "ValueError")]
-    (jObj [("op", Json.str "pct"), ("model", jRes jRat r), ("spec", sp), ("stale", Json.bool stale)], mi, s')
+        match usable, last with
+        | some t, _ => (pctJ v t, last)
+        | none, .unknown => (Json.null, .unknown)
+        | none, .known _ =>
+          match specTotal mi with                                        -- first read (or re-read of a 0)
+          | some t => (pctJ v t, .known (some t))
+          | none => (Json.null, .unknown)
+    (jObj [("op", Json.str "pct"), ("model", jRes jRat r), ("spec", sp), ("stale", Json.bool stale)], mi, s', last')
 
 def runHist (info full : Res (List Nat)) (specVal : String → Option (Option Nat)) :
-    List HStep → MI → PState → List Json
-  | [], _, _ => []
-  | st :: rest, mi, s =>
-    let (j, mi', s') := histStep info full specVal st mi s
-    j :: runHist info full specVal rest mi' s'
+    List HStep → MI → PState → Last → List Json
+  | [], _, _, _ => []
+  | st :: rest, mi, s, last =>
+    let (j, mi', s', last') := histStep info full specVal st mi s last
+    j :: runHist info full specVal rest mi' s' last'
 
 def histOut (j : Json) (info full : Res (List Nat)) (specVal : String → Option (Option Nat)) : R (List (String × Json)) := do
   match j.getObjVal? "hist" with
   | .error _ => return []
   | .ok h =>
     let steps ← asList parseHStep h
-    return [("hist", Json.arr (runHist info full specVal steps ⟨none, []⟩ ⟨none⟩).toArray)]
+    return [("hist", Json.arr (runHist info full specVal steps ⟨none, []⟩ ⟨none⟩ (.known none)).toArray)]
 
 def handle (_ : Unit) (j : Json) : R (Unit × Json) := do
   let op ← strF j "op"
